@@ -2,7 +2,7 @@
 From Coq Require Import List ZArith Bool.
 From LJT Require Import model.Huff model.Seq model.Prog model.Script model.ArithBin gen.GenNatOrder
   proofs.NatOrderProofs proofs.SeqBits proofs.SeqProofs proofs.ProgProofs proofs.ProgRefineProofs proofs.ScriptProofs
-  proofs.ChainProofs proofs.ArithProofs proofs.ArithACProofs proofs.ArithQMProofs model.T81Arith
+  proofs.ChainProofs proofs.ArithProofs proofs.ArithACProofs proofs.ArithQMProofs proofs.ArithScanProofs proofs.TotalityProofs model.T81Arith
   proofs.T81ArithProofsIdeal proofs.T81ArithProofsBytes proofs.ExampleCodec proofs.C03Examples gen.GenEntropyBytes proofs.EntropyBytesProofs gen.GenRestartClamp proofs.RestartProofs.
 Import ListNotations.
 Local Open Scope Z_scope.
@@ -306,3 +306,65 @@ Example C03_arith_nonvacuous :
   dec_dc_arith (list decision) next 4 0 1 (fst (enc_dc_arith 4 0 1 (-32767)) ++ [(7, true)])
     = Some (-32767, snd (enc_dc_arith 4 0 1 (-32767)), [(7, true)]).
 Proof. exact ex_C03_arith_nonvacuous. Qed.
+
+(* ---- arithmetic scans at the BYTE level: per restart interval all decisions through the QM coder
+   with its flush (an interval may emit no byte), stuffed, RSTn between intervals; every restart
+   interval; statistics / dc_context / last_dc_val reset per interval *)
+Theorem C03_arith_ac_first_scan_roundtrip : forall cs Al Ss Se Ri bl cur bytes, (Ss <= Se)%nat -> (Se <= 63)%nat ->
+  length cur = length bl ->
+  Forall (fun b => Forall (fun v => Z.abs v <= 32768) (acf_band Ss Se Al b)) bl ->
+  aacf_enc_scan cs Al Ss Se Ri bl = Some bytes ->
+  aacf_dec_scan cs Al Ss Se Ri cur bytes = Some (acf_res_list Ss Se Al bl cur).
+Proof. exact aacf_scan_roundtrip. Qed.
+Print Assumptions C03_arith_ac_first_scan_roundtrip.
+
+Theorem C03_arith_ac_refine_scan_roundtrip : forall cs Al Ss Se Ri bl cur bytes,
+  (1 <= Ss)%nat -> (Ss <= Se)%nat /\ (Se <= 63)%nat -> 0 <= Al -> length cur = length bl ->
+  Forall (fun bc => acr_hist Ss Se Al (fst bc) (snd bc)) (combine bl cur) ->
+  aacr_enc_scan cs Al Ss Se (Al + 1) Ri bl = Some bytes ->
+  aacr_dec_scan cs Al Ss Se Ri cur bytes = Some (map (fun bc => acr_expected Ss Se Al (fst bc) (snd bc)) (combine bl cur)).
+Proof. exact aacr_scan_roundtrip. Qed.
+Print Assumptions C03_arith_ac_refine_scan_roundtrip.
+
+Theorem C03_arith_dc_refine_scan_roundtrip : forall Al Ri ms cur bytes, length cur = length ms ->
+  Forall (fun mc => length (snd mc) = length (fst mc)) (combine ms cur) ->
+  adcr_enc_scan Al Ri ms = Some bytes ->
+  adcr_dec_scan Al Ri cur bytes = Some (map (fun mc => dcr_res Al (fst mc) (snd mc)) (combine ms cur)).
+Proof. exact adcr_scan_roundtrip. Qed.
+Print Assumptions C03_arith_dc_refine_scan_roundtrip.
+
+(* sequential arithmetic scans (DC with dc_context conditioning and the decoder's & 0xffff / (JCOEF) store,
+   then AC), any MCU layout: blocks with DC in [-2^14, 2^14) and |AC| <= 2^15 *)
+Theorem C03_arith_seq_scan_roundtrip : forall cs mem ncomp Ri ms bytes, Forall (Forall ablk_ok) ms ->
+  aseq_enc_scan cs mem ncomp Ri ms = Some bytes ->
+  aseq_dec_scan cs mem ncomp Ri (length ms) bytes = Some ms.
+Proof. exact aseq_scan_roundtrip. Qed.
+Print Assumptions C03_arith_seq_scan_roundtrip.
+
+(* DC first arithmetic scans (point transform 0 <= Al <= 13, DC in [-2^14, 2^14)) *)
+Theorem C03_arith_dc_first_scan_roundtrip : forall cs mem Al ncomp Ri ms cur bytes, 0 <= Al <= 13 -> length cur = length ms ->
+  Forall (fun mc => length (snd mc) = length (fst mc) /\ Forall (adcf_blk_ok Al) (fst mc)) (combine ms cur) ->
+  adcf_enc_scan cs mem Al ncomp Ri ms = Some bytes ->
+  adcf_dec_scan cs mem Al ncomp Ri cur bytes = Some (map (fun mc => dcf_res Al (fst mc) (snd mc)) (combine ms cur)).
+Proof. exact adcf_scan_roundtrip. Qed.
+Print Assumptions C03_arith_dc_first_scan_roundtrip.
+
+(* ---- encoder totality within the data-precision guards *)
+Theorem C03_enc_block_total : forall dc ac mcb, mcb <= 15 -> covers ac 0 255 -> covers dc 0 16 ->
+  forall last_dc b, Forall (coef_ok mcb) (skipn 1 (zz_of b)) -> nbits (Z.abs (nth 0%nat b 0 - last_dc)) <= mcb + 1 ->
+  exists bits, enc_block dc ac mcb last_dc b = Some bits.
+Proof. exact enc_block_total. Qed.
+Print Assumptions C03_enc_block_total.
+
+Theorem C03_enc_acf_blocks_total : forall ac mcb, mcb <= 15 -> covers ac 0 255 ->
+  forall Ss Se Al bl e, 0 <= e < 32767 ->
+  Forall (fun b => Forall (coef_ok mcb) (acf_band Ss Se Al b)) bl ->
+  exists bits, enc_acf_blocks ac mcb Ss Se Al bl e = Some bits.
+Proof. exact enc_acf_blocks_total. Qed.
+Print Assumptions C03_enc_acf_blocks_total.
+
+Theorem C03_arith_encoders_total : forall cs Al Ss Se Ah bl ms,
+  (exists ds, aacf_enc_blocks cs Al Ss Se bl = Some ds) /\ (exists ds, aacr_enc_blocks cs Al Ss Se Ah bl = Some ds) /\
+  (exists ds, adcr_enc_mcus Al ms = Some ds).
+Proof. exact arith_encoders_total. Qed.
+Print Assumptions C03_arith_encoders_total.
